@@ -642,6 +642,29 @@ class Check:
                 rp = self.write_note('race', '\n'.join(probs) + '\n' + err[-4000:])
                 self.violations.append((rp, 'concurrent stress run: ' + probs[0][:300], True))
 
+    def rule_text(self):
+        sp = self.spec or {}
+        parts = []
+        if sp.get('muh'):
+            parts.append('muh (block metadata): histories from one splitmix64 stream per (algorithm, profile); distinct = sha1 of CFG + op lines; non-trivial = >= 5 ops, >= 4 successful results and at least one free; plus the boundary sweep of the leaf functions')
+        for e in sp.get('eng', {}):
+            parts.append('%s: histories from one splitmix64 stream per profile (harness/cmd/%s, profiles in engine.json); distinct = sha1 of CFG + op lines; non-trivial = at least nontrivial_min_ops operations' % (e, e))
+        if sp.get('vamh'):
+            parts.append('vamh (whole allocator over the simulated device): one stream per history; distinct = hash of the op lines; non-trivial = histories reaching >= 3 device memory objects / freeing device memory before teardown / destroying the allocator (histories_reaching); core profiles are additionally replayed on the extracted whole-allocator model; fault enumeration = every driver call of every operation of a history fails once')
+        return '; '.join(parts)
+
+    def modelled_text(self):
+        sp = self.spec or {}
+        parts = []
+        if sp.get('muh'):
+            parts.append('memutils/metadata/{tlsf,linear}.go and vam/granularity.go (Tlsf.v, Linear.v, Gran.v; sort.Find = binary search with the same probe sequence)')
+        m = {'selh': 'memory type selection and fallback loop of vam/allocator.go (Select.v)', 'devh': 'vam/internal/vulkan/{sync_memory,device_memory}.go (SyncMem.v, Budget.v)', 'dfh': 'memutils/defrag/{pass,context}.go over TLSF blocks (Pass.v, Defrag.v)'}
+        for e in sp.get('eng', {}):
+            parts.append(m.get(e, e))
+        if sp.get('vamh'):
+            parts.append('the public API of vam (allocator.go, block_list.go, block.go, dedicated_list.go, pool.go, allocation.go, defrag.go, resource creation) over the simulated device (Vam*.v)')
+        return 'modelled as hand-written Gallina, not verified code: ' + '; '.join(parts) + '. Not modelled: cgo bindings and the real driver, swiss.Map, sync.Pool, JSON writers, debug builds, allocation callbacks, the Go runtime and memory model'
+
     def write_note(self, tag, text):
         rp = '%s/replays/%s-%s.txt' % (V, self.pid, tag)
         open(rp, 'w').write(text[-6000:])
@@ -875,11 +898,11 @@ class Check:
                 'extraction: ExtrOcamlBasic only (bool, option, unit, list, prod, sumbool + inlined andb/orb/negb), Z/N/positive kept as extracted inductives, no Extract Constant of our own; OCaml 4.13.1; hand-written ocaml/driver.ml (parsing, int<->Z, printing, allocation-number table)',
                 'correspondence check: Go harness harness/cmd/muh (generators, projection of observables, oracles) + line diff in bin/checklib.py; covers only the histories it runs',
                 'model files in the cone of Props/%s.v: %s' % (self.pid, ', '.join(pr.get('cone', []))),
-                'modelled, not verified: memutils/metadata/{tlsf,linear}.go, vam/granularity.go as hand-written Gallina; sort.Find replaced by a binary search with the same probe sequence; swiss.Map, sync.Pool, JSON writers, debug builds not modelled',
+                self.modelled_text(),
             ],
-            rule='histories generated from one splitmix64 stream per (component, profile) by harness/cmd/muh; distinct = sha1 of CFG+op lines; non-trivial = >=5 ops, >=4 successful results and at least one free',
+            rule=self.rule_text(),
             proof_ok=bool(pr.get('ok')), proof_problems=pr.get('bad', []), known_findings_hit=len(self.known_hits),
-            explanation='component theorems proved in Coq (obligations/discharged above, checker_cmd) and tied to the code by correspondence; the whole-allocator part of this property is decided by exploration / fault enumeration of the real allocator over the simulated device (evaluations, distribution, vamh keys); see MANIFEST level text',
+            explanation=('theorems of Props/%s.v proved in Coq (obligations/discharged = lemmas and theorems in its dependency cone, checker_cmd) about executable models that are tied to the code on this run by correspondence (traces_validated_against_impl, mismatches) and, for the leaf functions, by the translator; the search for failing inputs (oracles on the real code: evaluations, distribution, oracle_failures) supports the tie and decides the clauses that MANIFEST.json marks as exploration / fault enumeration' % self.pid),
         ))
         ev = dict(property_id=self.pid, tier=self.tier, seed=self.seed, level=level, coverage=c,
                   assumptions=['Go toolchain, runtime and memory model', 'block size < 2^39 (uint32 first-level bitmap), alignments are powers of two', 'handles passed to operations are live (stale TLSF handles are raw addresses)'],
